@@ -40,7 +40,27 @@ def run_unit(desc):
         rep["must_fail"] = dict(mf, unit=c.uid)
         if mf["mutants"] and mf["killed"] == 0:
             rep["crash"] = f"vacuity: none of {mf['mutants']} must-fail mutants of {c.uid} was refuted"
-    if c.witness and len(c.sources) > 1:
+    if getattr(c, "runner", None):
+        # operators with a native runner of their own (references written from the property text): replay, thorough
+        # cross-check of the contract against CPython, bounded stand-in on drift
+        script, opname = c.runner
+        rep["replayable"] = {"runner": script, "module": "-", "name": opname}
+        if h.unsupported or tier == "thorough":
+            res, err = report.native([os.path.join(VERIF, "rxvc", script), "replay", "-", opname,
+                                      json.dumps({"max_len": 2 if tier == "quick" else 3,
+                                                  "replay_path": os.path.join(report.REPLAY_DIR, f"{desc['prop']}-standin-{opname}.py"),
+                                                  "prop": desc["prop"], "oid": c.uid + "/bounded-standin"})], timeout=600)
+            st = res if res is not None else {"found": [], "error": err, "cases": 0}
+            rep["standin"] = st
+            rep["bounded"].append({"function": c.uid, "bound": f"{script}: every timeline of <= {2 if tier == 'quick' else 3} elements (3 values, gaps 10 / 20) with completion / "
+                                   "error / open end (also in the instant of the last element) x the operator's parameter grid, on a TestScheduler",
+                                   "cases": st.get("cases", 0), "mismatches": len(st.get("found", [])),
+                                   "role": "stand-in (out of subset)" if h.unsupported else "cross-check of the contract against CPython"})
+            if res is None:
+                rep["crash"] = f"native runner {script} failed: {err}"
+            elif not h.unsupported and st.get("found") and all(r.verdict == "proved" for r in h.results):
+                rep["crash"] = f"cross-check failed: verifier proved {c.uid} but the native run disagrees: {st['found'][0]}"
+    elif c.witness and len(c.sources) > 1:
         # several sources: interleavings of their events, real operator against the natively executed spec machine
         rep["replayable"] = {"runner": "multirun.py", "module": desc["module"], "name": c.name}
         if h.unsupported or tier == "thorough":
